@@ -772,8 +772,8 @@ class Array(MetaSymbol):
         if self.type:
             existing_type = scope.symbol_attrs.lookup(self.name)
             if existing_type:
-                return self.clone(scope=scope, type=existing_type, dimensions=self.dimensions)
-        return self.clone(scope=scope, dimensions=self.dimensions)
+                return self.clone(scope=scope, type=existing_type, dimensions=self.dimensions or None)
+        return self.clone(scope=scope, dimensions=self.dimensions or None)
 
 
 class Variable:
